@@ -34,7 +34,12 @@ RULE = ("sampler: environment explorer - numpy.random.uniform/choice/poisson are
         "second time before it is reported.  solver/lbfgsb: product of the configuration lattice x data family, "
         "one real solve each, invariants evaluated on the recorded true trace; the stop tolerance f_est_tol is "
         "placed relative to the objective of the starting guess, on both sides of it.  Sparse data is enumerated as "
-        "(zero pattern, stored order of the nonzeros) for every sampler entry point.  reuse: every word of solves of "
+        "(zero pattern, stored order of the nonzeros) for every sampler entry point.  The data family further has the "
+        "dimensions STORAGE DTYPE (float64 | integer stores of the same values | a boolean store of binary data) and "
+        "ORDER (shapes of order 4 / 5 with the cell counts of the order 2 / 3 shapes): for each of them the whole "
+        "sampler lattice (operation x zero pattern x counts x GCPSampler configuration) is repeated with a reduced script "
+        "scope; the solver / lbfgsb / init / reuse data pool holds members of order 2..5, the driver slices (init, "
+        "gcp_opt with an objective enum) also run on integer-stored counts.  reuse: every word of solves of "
         "length <= 3 over the problem alphabet on one optimizer object versus a fresh object.  Non-trivial: a "
         "sample with >= 1 entry / a solve with >= 1 completed epoch / a word of >= 2 solves.")
 ASSUMPTIONS = [
@@ -45,7 +50,9 @@ ASSUMPTIONS = [
     "objective; the reference objective is sum f(x, m) with f written out here (Gaussian (x-m)^2, Poisson "
     "m - x log(m + 1e-10)) on mc.refmodel.kruskal values",
     "finite data alphabet: zero patterns over generic integer cell values (samplers), a fixed pool of small count "
-    "tensors and positive rational initial guesses (solvers); seeds only rotate these pools",
+    "tensors and positive rational initial guesses (solvers); seeds only rotate these pools; storage dtypes are "
+    "only bound to values they hold exactly (int8..int64: the signed odd integers / counts, bool: 0/1 data); the "
+    "reference array is float64 in every case",
     "time traces and wall-clock fields are not compared",
 ]
 BOUNDS = {
@@ -57,24 +64,33 @@ BOUNDS = {
              "every valid function / gradient sampler choice {default, UNIFORM, STRATIFIED, SEMISTRATIFIED} x count "
              "forms {default, int, StratifiedCount} on 6 ((2,2)) resp. 5 ((2,3)) patterns, Poisson stratum sizes 0..2; "
              "scripts: complete for <= 5 ((2,3): 4) draws, <= 2 deviations from each of the 2+cells policies for <= 8 "
-             "((2,3): 6) draws, <= 1 deviation beyond; boundary draw u=0.0 on (2,2). solver (6 912 solves): {SGD,Adam,"
+             "((2,3): 6) draws, <= 1 deviation beyond; boundary draw u=0.0 on (2,2); storage-dtype / order families "
+             "(2,2) x {int64, bool}, (2,3) x int64, order-4 shape (2,1,2,1) float64: the same operation x pattern x count "
+             "x GCPSampler lattice on the column-major stored order, scripts complete for <= 3 ((2,3): 2) draws and <= 1 "
+             "deviation from each policy beyond. solver (12 420 solves): {SGD,Adam,"
              "Adagrad} x rate {1e-3,1e-1,10} x decay {.1,1} x max_fails 0..2 x max_iters 0..4 x epoch_iters {1,2} x "
-             "{Gaussian, Poisson} x 3 pool members, rank 2, + f_est_tol slice: tolerance on both sides of the objective "
+             "{Gaussian, Poisson} x 5 pool members (3 of order 2 / 3 rotated by the seed + (2,2,2,2) + (2,1,2,3,2)), "
+             "rank 2, + f_est_tol slice: tolerance on both sides of the objective "
              "F0 of the starting guess {0.5 F0, 0.98 F0 | 1.02 F0, 1e3 F0, +inf (already met by the start)} x rate "
              "{1e-3,1e-1,10} x max_fails {0,1} x max_iters {0,1,3} x epoch_iters {1,2}, and gcp_opt-driver slices "
-             "(objective as tuple and as enum, dense and sparse data); init: 3 members x {dense, sparse} x rank 1-3 x 2 "
-             "numpy seeds. lbfgsb (240 solves): maxiter {0,1,2,5,40} x 2 "
-             "losses x 3 members x rank {1,2} x mask {none, one hole} x {solve, gcp_opt}. reuse (1 344 words): 5 optimizer "
-             "kinds (LBFGSB with / without user callback) x 2 configurations x {scripted, seeded real} sampler x all 84 "
-             "words of length <= 3 over 4 problems (two sizes, two ranks, two losses)",
+             "(objective as tuple and as enum, dense and sparse data, enum also on int64-stored data); init: 5 members x "
+             "{dense, sparse} x {float64, int64} x rank 1-3 x 2 "
+             "numpy seeds. lbfgsb (400 solves): maxiter {0,1,2,5,40} x 2 "
+             "losses x 5 members x rank {1,2} x mask {none, one hole} x {solve, gcp_opt}. reuse (2 540 words): 5 optimizer "
+             "kinds (LBFGSB with / without user callback) x 2 configurations x {scripted, seeded real} sampler x all 155 "
+             "words of length <= 3 over 5 problems (three sizes, orders 2 / 3 / 4, two ranks, two losses)",
     "thorough": "sampler (~5.8 M executions): (2,2) all patterns with the full (nn, nz) grid 0..nnz+2 x 0..zeros+2, (2,3) "
                 "all 64 patterns (GCPSampler lattice on 8 classes), (2,2,2) 8 classes; two stored orders as in quick; "
                 "Poisson counts 0..3; scripts "
                 "complete for <= 5 draws ((2,2,2): 4), <= 2 deviations up to 12 / 7 / 6 draws; boundary draws on (2,2) "
-                "and (2,3). solver (83 880 solves): rate {1e-3,1e-2,1e-1,1,10} x decay {.1,.5,1} x max_fails 0..3 x "
-                "max_iters 0..6 x epoch_iters {1,2,3} x rank {1,2} x 5 pool members; f_est_tol slice as in quick with "
-                "rate {1e-3,1e-2,1e-1,10}. lbfgsb: maxiter {0,1,2,3,5,10,40,"
-                "200}. reuse: 5 problems incl. sparse data (155 words), 3 configurations",
+                "and (2,3); storage-dtype / order families (2,2) x {int64, int32, int8, bool}, (2,3) x {int64, bool}, "
+                "(2,2,2) x int64, order >= 4 shapes (2,1,2,1) x {float64, int64}, (1,2,1,3,1), (2,2,1,2): scripts complete "
+                "for <= 4 / 3 / 2 draws (4 / 6 / 8 cells), <= 1 deviation beyond. solver: rate {1e-3,1e-2,1e-1,1,10} x "
+                "decay {.1,.5,1} x max_fails 0..3 x "
+                "max_iters 0..6 x epoch_iters {1,2,3} x rank {1,2} x 7 pool members (5 of order 2 / 3, order 4, order 5); "
+                "f_est_tol slice as in quick with "
+                "rate {1e-3,1e-2,1e-1,10}. init: all 8 members x {float64, int64, int32}. lbfgsb: maxiter {0,1,2,3,5,10,40,"
+                "200}. reuse: 6 problems incl. sparse data and order 4 (258 words), 3 configurations",
 }
 CHUNK = 1
 
@@ -271,6 +287,8 @@ def _pattern_classes(n):
 
 # cells -> (complete enumeration up to this many cell/entry draws, <= 2 deviations up to this many draws, 1 beyond)
 EXPLORE = {"quick": {4: (5, 8), 6: (4, 6)}, "thorough": {4: (5, 12), 6: (5, 7), 8: (4, 6)}}
+# reduced script scope of the storage-dtype / order >= 4 families
+EXPLORE_REDUCED = {"quick": {4: (3, 3), 6: (2, 2)}, "thorough": {4: (4, 4), 6: (3, 3), 8: (2, 2)}}
 
 
 SLICE = 2500
@@ -328,20 +346,23 @@ def _estimate_scripts(c):
     return count(ndraws(nn) + (zdraws(nz) if kind == "STRATIFIED" else nz))
 
 
-def _orders(nnz):
+def _orders(nnz, reduced=False):
     """Stored orders of the nonzeros of an sptensor: column-major (sorted linear index) and its reverse."""
-    return ("fwd", "rev") if nnz >= 2 else ("fwd",)
+    return ("fwd", "rev") if nnz >= 2 and not reduced else ("fwd",)
 
 
 def _sampler_cases(tier, seed):
     th = tier == "thorough"
     out = []
+    cur = {"dtype": None, "reduced": False}   # storage dtype / exploration depth of the family being generated
 
     def add(op, shape, pat, args, holder="sptensor", order="fwd", boundary=False):
+        ex = (EXPLORE_REDUCED if cur["reduced"] else EXPLORE)[tier][prod(shape)]
         c = {"check": "sampler", "op": op, "shape": list(shape), "pat": list(pat), "vseed": seed,
              "holder": holder, "order": order, "args": args, "boundary": boundary,
-             "pois_max": 3 if th else 2, "max_complete": EXPLORE[tier][prod(shape)][0],
-             "long_len": EXPLORE[tier][prod(shape)][1]}
+             "pois_max": 3 if th else 2, "max_complete": ex[0], "long_len": ex[1]}
+        if cur["dtype"]:
+            c["dtype"] = cur["dtype"]
         # big batches are cut into slices scripts[i::k] (load balancing only; the union is the whole batch)
         k = max(1, ceil(_estimate_scripts(c) / SLICE))
         if k == 1:
@@ -349,8 +370,20 @@ def _sampler_cases(tier, seed):
         else:
             out.extend(dict(c, slice=[i, k]) for i in range(k))
 
-    shapes = [(2, 2), (2, 3)] + ([(2, 2, 2)] if th else [])
-    for shape in shapes:
+    # (shape, storage dtype, reduced script exploration).  The first block is the float64 family of order <= 3 with
+    # the full script scope; the second block repeats the WHOLE operation x pattern x count lattice for the other
+    # storage dtypes of the data (integer / boolean stores: the natural storage of count / binary data) and for
+    # shapes of order >= 4 (same cell counts, singleton modes), on the column-major stored order, with the
+    # reduced script scope EXPLORE_REDUCED.
+    families = [((2, 2), None, False), ((2, 3), None, False)] + ([((2, 2, 2), None, False)] if th else [])
+    families += [((2, 2), "int64", True), ((2, 2), "bool", True), ((2, 3), "int64", True),
+                 ((2, 1, 2, 1), None, True)]
+    if th:
+        families += [((2, 2), "int32", True), ((2, 2), "int8", True), ((2, 3), "bool", True),
+                     ((2, 1, 2, 1), "int64", True), ((1, 2, 1, 3, 1), None, True), ((2, 2, 2), "int64", True),
+                     ((2, 2, 1, 2), None, True)]
+    for shape, dtype, reduced in families:
+        cur["dtype"], cur["reduced"] = dtype, reduced
         n = prod(shape)
         full_pats = n <= 4 or (th and n <= 6)
         pats = space.patterns(n, 6) if full_pats else _pattern_classes(n)
@@ -358,7 +391,7 @@ def _sampler_cases(tier, seed):
         # uniform: values only - three patterns suffice
         for pat in (pats[0], pats[len(pats) // 2], pats[-1]):
             for holder in ("tensor", "sptensor"):
-                for order in (_orders(sum(pat)) if holder == "sptensor" else ("fwd",)):
+                for order in (_orders(sum(pat), reduced) if holder == "sptensor" else ("fwd",)):
                     for cnt in range(0, n + 3):
                         if cnt > 6 and not th:
                             continue
@@ -367,7 +400,7 @@ def _sampler_cases(tier, seed):
             nnz = sum(pat)
             nzr = n - nnz
             # stored order of the nonzeros: a dimension of EVERY operation that is handed the sptensor
-            orders = _orders(nnz)
+            orders = _orders(nnz, reduced)
             for order in orders:
                 for cnt in range(0, nnz + 3):
                     for repl in (True, False):
@@ -416,6 +449,7 @@ def _sampler_cases(tier, seed):
                 for which in ("function", "gradient"):
                     add("gcp", shape, pat, {"fs": None, "fn": fn, "gs": None, "gn": gn, "which": which},
                         holder="tensor")
+    cur["dtype"], cur["reduced"] = None, False
     # boundary draws: the legal value u = 0.0
     for shape in ([(2, 2), (2, 3)] if th else [(2, 2)]):
         n = prod(shape)
@@ -437,12 +471,19 @@ POOL = [
     ((3, 3), [1, 0, 0, 2, 4, 0, 0, 1, 3]),
     ((2, 2, 2), [1, 0, 0, 2, 0, 3, 1, 0]),
     ((2, 3), [0, 2, 1, 0, 0, 5]),
+    # order >= 4 (appended: the indices above are referred to by PROBLEMS and by recorded witnesses)
+    ((2, 2, 2, 2), [1, 0, 2, 0, 0, 3, 1, 0, 0, 1, 0, 2, 4, 0, 0, 1]),
+    ((2, 1, 2, 3, 2), [0, 2, 1, 0, 0, 3, 1, 0, 2, 0, 0, 1, 1, 0, 0, 2, 0, 1, 3, 0, 0, 1, 0, 4]),
 ]
+N_LOW = 6    # members of order 2 and 3
+HIGH = [6, 7]  # members of order 4 and 5
 
 
 def _members(tier, seed):
+    """Pool members of a tier: a seed-rotated window of the order 2 / 3 members plus the members of order 4 and 5."""
     k = 5 if tier == "thorough" else 3
-    return [(seed + i) % len(POOL) for i in range(k)]
+    low = [(seed + i) % N_LOW for i in range(k)]
+    return low + HIGH
 
 
 # f_est_tol as a multiple of the objective F0 of the starting guess (towards the better side for a factor < 1,
@@ -488,7 +529,7 @@ def _solver_cases(tier, seed):
                                 "epoch_iters": [1, 2], "tol": TOLS, "via": ["solve"]})
                     out.append({"check": "solver", "opt": opt, "loss": loss, "data": d, "rank": 2, "rate": rate,
                                 "decay": 0.1, "seed": seed, "max_fails": [0, 1], "max_iters": [0, 2, 3],
-                                "epoch_iters": [2], "tol": [None], "via": ["gcp_tuple", "gcp_enum"]})
+                                "epoch_iters": [2], "tol": [None], "via": ["gcp_tuple", "gcp_enum", "gcp_enum_int"]})
     return out
 
 
@@ -511,8 +552,12 @@ def _init_cases(tier, seed):
     for d in range(len(POOL)) if tier == "thorough" else _members(tier, seed):
         for sparse in (False, True):
             for R in (1, 2, 3):
-                out.append({"check": "init", "data": d, "sparse": sparse, "rank": R, "seed": seed,
-                            "np_seeds": list(range(4 if tier == "thorough" else 2))})
+                for dtype in (None, "int64") + (("int32",) if tier == "thorough" else ()):
+                    c = {"check": "init", "data": d, "sparse": sparse, "rank": R, "seed": seed,
+                         "np_seeds": list(range(4 if tier == "thorough" else 2))}
+                    if dtype:
+                        c["dtype"] = dtype
+                    out.append(c)
     return out
 
 
@@ -522,6 +567,7 @@ PROBLEMS = {
     "P3": {"data": 1, "loss": "GAUSSIAN", "rank": 2, "salt": 1},
     "P4": {"data": 0, "loss": "GAUSSIAN", "rank": 1, "salt": 2},
     "P5": {"data": 3, "loss": "POISSON", "rank": 2, "salt": 4, "sparse": True},
+    "P6": {"data": 6, "loss": "GAUSSIAN", "rank": 2, "salt": 5},   # order 4: another NUMBER of factor matrices
 }
 REUSE_CFG = {
     "calm": {"rate": 1e-2, "decay": 0.1, "max_fails": 1, "max_iters": 3, "epoch_iters": 2, "maxiter": 3},
@@ -534,7 +580,7 @@ REUSE_CFG = {
 
 def _reuse_cases(tier, seed):
     th = tier == "thorough"
-    alphabet = ["P1", "P2", "P3", "P4"] + (["P5"] if th else [])
+    alphabet = ["P1", "P2", "P3", "P4", "P6"] + (["P5"] if th else [])
     cfgs = ["calm", "failing"] + (["long"] if th else [])
     out = []
     for L in (1, 2, 3):
@@ -573,7 +619,11 @@ def gen_cases(tier, seed):
 
 def _sampler_data(case):
     shape = tuple(case["shape"])
-    vals = space.dense_values(shape, case["pat"], case.get("vseed", 0))
+    if case.get("dtype") == "bool":
+        # binary data: the only values a boolean store holds exactly
+        vals = [float(bool(p)) for p in case["pat"]]
+    else:
+        vals = space.dense_values(shape, case["pat"], case.get("vseed", 0))
     A = rm.arr(shape, vals)
     return shape, vals, A
 
@@ -581,6 +631,15 @@ def _sampler_data(case):
 def _build_data(case, shape, vals):
     import pyttb as ttb
 
+    if case.get("dtype"):
+        # storage dtype of the holder (the reference array stays float64; the values are exact in the dtype)
+        nnz = sum(1 for v in vals if v != 0)
+        d = {"kind": case["holder"], "shape": list(shape), "vals": list(vals), "dtype": case["dtype"],
+             "order": list(range(nnz))[::-1] if case.get("order") == "rev" else None}
+        data = H.build(d)
+        if nnz and (data.vals if case["holder"] == "sptensor" else data.data).dtype != np.dtype(case["dtype"]):
+            raise AssertionError("holder does not have the requested storage dtype")
+        return data
     if case["holder"] == "tensor":
         return ttb.tensor(np.asfortranarray(rm.arr(shape, vals)))
     subs, v = H.sp_parts(shape, vals)
@@ -960,11 +1019,15 @@ def _handles(loss, data=None):
     return fg_setup.setup(Objectives[loss], data)
 
 
-def _make_data(idx, sparse=False):
+def _make_data(idx, sparse=False, dtype=None):
     import pyttb as ttb
 
     shape, vals = POOL[idx]
     X = rm.arr(shape, [float(v) for v in vals])
+    if dtype:
+        # storage dtype of the data (the pool holds small counts: exact in every integer dtype)
+        return shape, X, H.build({"kind": "sptensor" if sparse else "tensor", "shape": list(shape),
+                                  "vals": [float(v) for v in vals], "dtype": dtype})
     if sparse:
         subs, v = H.sp_parts(shape, [float(x) for x in vals])
         return shape, X, H.make_sptensor(shape, subs, v)
@@ -991,7 +1054,11 @@ def _run_solver(case, ctx):
 
 def _one_solve(c, ctx, ttb):
     opt_name, loss, via = c["opt"], c["loss"], c["via"]
-    shape, X, data = _make_data(c["data"], sparse=(via == "gcp_enum" and c["data"] % 2 == 1))
+    # driver slices: "gcp_enum" dense / sparse by member, "gcp_enum_int" the same with the counts stored as integers
+    shape, X, data = _make_data(c["data"], sparse=(via.startswith("gcp_enum") and c["data"] % 2 == 1),
+                                dtype="int64" if via == "gcp_enum_int" else None)
+    if via == "gcp_enum_int":
+        via = "gcp_enum"
     K0f = _guess(shape, c["rank"], c.get("seed", 0))
     f, g, lb = _handles(loss)
     F0 = ref_F(loss, X, K0f)
@@ -1156,7 +1223,7 @@ def _run_init(case, ctx):
     import pyttb as ttb
     from pyttb.gcp.handles import Objectives
 
-    shape, X, data = _make_data(case["data"], sparse=case["sparse"])
+    shape, X, data = _make_data(case["data"], sparse=case["sparse"], dtype=case.get("dtype"))
     R = case["rank"]
     ctx.state()
     for ns in case["np_seeds"]:
